@@ -27,7 +27,8 @@ for sid in sys.argv[1:]:
             rc, out = sh("bash %s/%s %s" % (src, run, wt), cwd=src, timeout=900)
             meta["demo_with_change_rc"] = rc
             meta["demo_with_change_tail"] = out[-400:]
-            sh("git checkout -- lib src && make -j8 2>&1 | tail -1", cwd=wt)
+            # the check-only targets (lib/liblhasatest.a, src/test-lha) are rebuilt too: some demonstrations link them
+            sh("git checkout -- lib src && make -j8 2>&1 | tail -1; make -j8 -C lib liblhasatest.a 2>&1 | tail -1; make -j8 -C src test-lha 2>&1 | tail -1", cwd=wt)
             rc2, out2 = sh("bash %s/%s %s" % (src, run, wt), cwd=src, timeout=900)
             meta["demo_without_change_rc"] = rc2
             meta["demo_without_change_tail"] = out2[-300:]
